@@ -256,3 +256,359 @@ package formula
 //@   tags [C14,C01]
 //@   panics never
 //@   ensures result == isIdPart(ch)
+
+// ---------------------------------------------------------------------------
+// Parser: state, token plumbing, node constructors
+// ---------------------------------------------------------------------------
+
+//@ frame scanState(s *Scanner) := s.pos, s.startPos, s.tokenPos, s.token, s.tokenValue, s.tokenFlags
+//@ frame parserState(p *Parser) := scanState(p.scanner), p.parseDiagnostics, p.nodeCount, p.identifierCount, p.parsingCtx
+
+// tokinv: what Scan establishes about the current token. pinv: a primed parser.
+//@ spec tokinv(s *Scanner) bool := (s.token == SK_EndOfFile ==> s.pos == s.end && s.tokenPos == s.end) && (s.token != SK_EndOfFile ==> s.pos > s.tokenPos)
+//@ spec pinv(p *Parser) bool := p != nil && p.scanner != nil && scanFrame(p.scanner) && !isnil(p.scanner.onError) && owner(p.scanner) == p && tokinv(p.scanner)
+//@ spec rem(p *Parser) int := p.scanner.end - p.scanner.startPos
+//@ spec tok(p *Parser) int := p.scanner.token
+//@ spec ndp(p *Parser) int := len(p.parseDiagnostics)
+//@ spec spos(p *Parser) int := p.scanner.startPos
+//@ spec lbk(p *Parser) bool := p.scanner.tokenFlags & TF_PrecedingLineBreak != 0
+//@ spec pstep(p *Parser) bool := pinv(p) && rem(p) <= old(rem(p)) && ndp(p) >= old(ndp(p))
+//@ spec sameScan(p *Parser) bool := tok(p) == old(tok(p)) && spos(p) == old(spos(p)) && p.scanner.pos == old(p.scanner.pos) && p.scanner.tokenPos == old(p.scanner.tokenPos) && p.scanner.tokenFlags == old(p.scanner.tokenFlags) && p.scanner.tokenValue == old(p.scanner.tokenValue)
+//@ spec xpos(e Expression) int := ptr(e, *textRange).pos
+//@ spec xend(e Expression) int := ptr(e, *textRange).end
+//@ spec okx(e Expression) bool := isref(e) && refOf(e) > 0
+
+//@ func (*Parser).nextToken
+//@   tags [C01]
+//@   requires pinv(p)
+//@   assigns parserState(p)
+//@   panics never
+//@   ensures pstep(p) && result == tok(p) && spos(p) == old(p.scanner.pos)
+//@   ensures old(tok(p)) != SK_EndOfFile ==> rem(p) < old(rem(p))
+
+//@ func (*Parser).errorAtCurrentToken
+//@   tags [C01]
+//@   requires pinv(p) && message != nil
+//@   assigns p.parseDiagnostics
+//@   panics never
+//@   ensures pinv(p) && ndp(p) > 0 && ndp(p) >= old(ndp(p))
+
+//@ func (*Parser).parseToken
+//@   tags [C01,C15]
+//@   requires pinv(p)
+//@   assigns parserState(p)
+//@   panics never
+//@   ensures pstep(p) && result != nil && fresh(result) && result.Token == old(tok(p))
+//@   ensures[C15] result.pos == old(spos(p)) && result.end == spos(p) && result.pos <= result.end
+//@   ensures old(tok(p)) != SK_EndOfFile ==> rem(p) < old(rem(p))
+
+//@ func (*Parser).gotToken
+//@   tags [C01,C15]
+//@   requires pinv(p)
+//@   assigns parserState(p)
+//@   panics never
+//@   ensures pstep(p) && (result == nil <==> old(tok(p)) != t)
+//@   ensures result != nil ==> fresh(result) && result.Token == t && result.pos == old(spos(p)) && result.end == spos(p)
+//@   ensures result != nil && t != SK_EndOfFile ==> rem(p) < old(rem(p))
+//@   ensures result == nil ==> sameScan(p) && ndp(p) == old(ndp(p))
+
+//@ func (*Parser).got
+//@   tags [C01]
+//@   requires pinv(p)
+//@   assigns parserState(p)
+//@   panics never
+//@   ensures pstep(p) && (result <==> old(tok(p)) == t)
+//@   ensures result && t != SK_EndOfFile ==> rem(p) < old(rem(p))
+//@   ensures !result ==> sameScan(p) && ndp(p) == old(ndp(p))
+
+//@ func (*Parser).parseExpected
+//@   tags [C01,C02]
+//@   requires pinv(p) && 0 <= kind && kind < SK_Count
+//@   assigns parserState(p)
+//@   panics never
+//@   ensures pstep(p) && (result <==> old(tok(p)) == kind)
+//@   ensures result && shouldAdvance && kind != SK_EndOfFile ==> rem(p) < old(rem(p))
+//@   ensures[C02,C01] !result ==> sameScan(p) && ndp(p) > 0
+
+//@ func (*Parser).wantToken
+//@   tags [C01,C15]
+//@   requires pinv(p) && diagnosticMessage != nil && 0 <= t && t < SK_Count
+//@   assigns parserState(p)
+//@   panics never
+//@   ensures pstep(p) && result != nil && fresh(result)
+//@   ensures old(tok(p)) == t ==> result.Token == t && result.pos == old(spos(p)) && result.end == spos(p) && (t != SK_EndOfFile ==> rem(p) < old(rem(p)))
+//@   ensures[C01,C02] old(tok(p)) != t ==> ndp(p) > 0 && sameScan(p) && result.pos == spos(p) && result.end == spos(p)
+
+//@ func (*Parser).createIdentifier
+//@   tags [C01,C15]
+//@   requires pinv(p)
+//@   assigns parserState(p)
+//@   panics never
+//@   ensures pstep(p) && result != nil && fresh(result)
+//@   ensures isIdentifier ==> result.Value == old(p.scanner.tokenValue) && result.pos == old(spos(p)) && result.end == spos(p) && (old(tok(p)) != SK_EndOfFile ==> rem(p) < old(rem(p)))
+//@   ensures[C01,C02] !isIdentifier ==> ndp(p) > 0 && sameScan(p) && result.pos == spos(p) && result.end == spos(p)
+
+//@ func (*Parser).parseLiteralExpressionRest
+//@   tags [C01,C15]
+//@   requires pinv(p)
+//@   assigns parserState(p)
+//@   panics never
+//@   ensures pstep(p) && result != nil && fresh(result) && result.Token == kind && result.Value == old(p.scanner.tokenValue)
+//@   ensures[C15] result.pos == old(spos(p)) && result.end == spos(p)
+//@   ensures old(tok(p)) != SK_EndOfFile ==> rem(p) < old(rem(p))
+
+// The binary-operator ladder of the grammar (C02), written from the property statement.
+//@ spec prec(t int) int := (t == SK_BarBar || t == SK_QuestionQuestion) ? 1 : t == SK_AmpersandAmpersand ? 2 : t == SK_Bar ? 3 : t == SK_Caret ? 4 : t == SK_Ampersand ? 5 : (t == SK_EqualsEquals || t == SK_ExclamationEquals || t == SK_EqualsEqualsEquals || t == SK_ExclamationEqualsEquals) ? 6 : (t == SK_LessThan || t == SK_GreaterThan || t == SK_LessThanEquals || t == SK_GreaterThanEquals) ? 7 : (t == SK_Plus || t == SK_Minus) ? 9 : (t == SK_Asterisk || t == SK_Slash || t == SK_Percent) ? 10 : -1
+
+//@ func (*Parser).getBinaryOperatorPrecedence
+//@   tags [C02]
+//@   requires p != nil && p.scanner != nil
+//@   panics never
+//@   noalloc
+//@   ensures result == prec(tok(p))
+
+//@ func (*Parser).makeBinaryExpression
+//@   tags [C01,C15]
+//@   requires p != nil && p.scanner != nil && okx(left)
+//@   assigns p.nodeCount
+//@   panics never
+//@   ensures result != nil && fresh(result) && result.Left == left && result.Operator == operator && result.Right == right
+//@   ensures[C15] result.pos == xpos(left) && result.end == spos(p)
+
+// ---------------------------------------------------------------------------
+// Parser: grammar
+// ---------------------------------------------------------------------------
+
+// Token classes used by the grammar contracts.
+//@ spec isIdTok(t int) bool := t == SK_Identifier || (t >= SK_FirstKeyword && t <= SK_LastKeyword)
+//@ spec primTok(t int) bool := t == SK_NumberLiteral || t == SK_StringLiteral || t == SK_OpenParen || t == SK_OpenBracket || isIdTok(t)
+//@ spec prefixTok(t int) bool := t == SK_Plus || t == SK_Minus || t == SK_Tilde || t == SK_Exclamation || t == SK_ExclamationExclamation
+// first(t): the tokens that may start an expression according to the grammar (C02).
+//@ spec first(t int) bool := primTok(t) || prefixTok(t)
+// consumes(t, k): a (sub)expression parser entered at token t with binary level k reads at least one token.
+//@ spec consumes(t int, k int) bool := first(t) || prec(t) > k
+
+// Grammar classes (C02): 0 comma, 1 assignment/conditional, 1+prec for ladder operators,
+// 12 prefix/typeof, 13 postfix/primary.
+//@ spec binCls(t int) int := t == SK_Comma ? 0 : (t >= SK_FirstAssignment && t <= SK_LastAssignment) ? 1 : 1 + prec(t)
+//@ spec cls(e Expression) int := is(e, *BinaryExpression) ? binCls(as(e, *BinaryExpression).Operator.Token) : is(e, *ConditionalExpression) ? 1 : (is(e, *PrefixUnaryExpression) || is(e, *TypeOfExpression)) ? 12 : 13
+//@ spec topPrec(e Expression) int := is(e, *BinaryExpression) ? prec(as(e, *BinaryExpression).Operator.Token) : 11
+
+// pres: what every expression parser ensures about the parser state and the node it returns.
+//@ spec pres(p *Parser, r Expression) bool := pstep(p) && okx(r) && xend(r) == spos(p) && xpos(r) <= xend(r) && (rem(p) == old(rem(p)) ==> tok(p) == old(tok(p)))
+
+//@ func (*Parser).isStartOfLeftHandSideExpression
+//@   tags [C02]
+//@   requires p != nil && p.scanner != nil
+//@   panics never
+//@   noalloc
+//@   ensures result == (primTok(tok(p)) || tok(p) == SK_Slash)
+
+//@ func (*Parser).isStartOfExpression
+//@   tags [C02,C01]
+//@   requires p != nil && p.scanner != nil
+//@   panics never
+//@   noalloc
+//@   ensures result ==> consumes(tok(p), 0)
+//@   ensures[C02] first(tok(p)) ==> result
+
+//@ func (*Parser).parseExpression
+//@   tags [C01,C02,C15]
+//@   requires pinv(p)
+//@   assigns parserState(p)
+//@   panics never
+//@   decreases rem(p), 30
+//@   ensures pres(p, result) && xpos(result) == old(spos(p))
+//@   ensures consumes(old(tok(p)), 0) ==> rem(p) < old(rem(p))
+//@   ensures[C02] cls(result) >= 0
+//@   at call (*Parser).makeBinaryExpression: assert[C02] operator.Token == SK_Comma && cls(right) >= 1
+//@   loop 1: invariant pinv(p) && rem(p) <= old(rem(p)) && ndp(p) >= old(ndp(p)) && okx(expr) && xend(expr) == spos(p) && xpos(expr) == old(spos(p)) && xpos(expr) <= xend(expr)
+//@           invariant consumes(old(tok(p)), 0) ==> rem(p) < old(rem(p))
+//@           invariant rem(p) == old(rem(p)) ==> tok(p) == old(tok(p))
+//@           decreases rem(p)
+
+//@ func (*Parser).parseAssignmentExpressionOrHigher
+//@   tags [C01,C02,C15]
+//@   requires pinv(p)
+//@   assigns parserState(p)
+//@   panics never
+//@   decreases rem(p), 29
+//@   ensures pres(p, result) && xpos(result) == old(spos(p))
+//@   ensures consumes(old(tok(p)), 0) ==> rem(p) < old(rem(p))
+//@   ensures[C02] cls(result) >= 1
+//@   at call (*Parser).makeBinaryExpression: assert[C02] operator.Token >= SK_FirstAssignment && operator.Token <= SK_LastAssignment && cls(left) >= 2 && cls(right) >= 1
+
+//@ func (*Parser).parseConditionalExpression
+//@   tags [C01,C02,C15]
+//@   requires pinv(p) && okx(leftOperand) && xend(leftOperand) == spos(p) && xpos(leftOperand) <= xend(leftOperand) && cls(leftOperand) >= 2
+//@   assigns parserState(p)
+//@   panics never
+//@   decreases rem(p), 28
+//@   ensures pres(p, result) && xpos(result) == xpos(leftOperand)
+//@   ensures[C02] cls(result) >= 1
+//@   ensures[C02] is(result, *ConditionalExpression) ==> cls(as(result, *ConditionalExpression).Condition) >= 2 && cls(as(result, *ConditionalExpression).WhenTrue) >= 1 && cls(as(result, *ConditionalExpression).WhenFalse) >= 1
+//@   ensures[C01] is(result, *ConditionalExpression) ==> okx(as(result, *ConditionalExpression).Condition) && okx(as(result, *ConditionalExpression).WhenTrue) && okx(as(result, *ConditionalExpression).WhenFalse)
+
+//@ func (*Parser).parseBinaryExpression
+//@   tags [C01,C02,C15]
+//@   requires pinv(p) && 0 <= precedence && precedence <= 10
+//@   assigns parserState(p)
+//@   panics never
+//@   decreases rem(p), 27
+//@   ensures pres(p, result) && xpos(result) == old(spos(p))
+//@   ensures consumes(old(tok(p)), precedence) ==> rem(p) < old(rem(p))
+//@   ensures[C02] cls(result) >= 2 + precedence && prec(tok(p)) <= precedence
+
+//@ func (*Parser).parseBinaryExpressionRest
+//@   tags [C01,C02,C15]
+//@   requires pinv(p) && 0 <= precedence && precedence <= 10
+//@   requires okx(leftOperand) && xend(leftOperand) == spos(p) && xpos(leftOperand) <= xend(leftOperand) && cls(leftOperand) >= 12
+//@   assigns parserState(p)
+//@   panics never
+//@   decreases rem(p), 20
+//@   ensures pres(p, result) && xpos(result) == xpos(leftOperand)
+//@   ensures prec(old(tok(p))) > precedence ==> rem(p) < old(rem(p))
+//@   ensures[C02] cls(result) >= 2 + precedence && prec(tok(p)) <= precedence
+//@   at call (*Parser).makeBinaryExpression: assert[C02] prec(operator.Token) >= 1 && cls(left) >= 1 + prec(operator.Token) && cls(right) >= 2 + prec(operator.Token)
+//@   loop 1: invariant pinv(p) && rem(p) <= old(rem(p)) && ndp(p) >= old(ndp(p))
+//@           invariant okx(leftOperand) && xend(leftOperand) == spos(p) && xpos(leftOperand) == old(xpos(leftOperand)) && xpos(leftOperand) <= xend(leftOperand)
+//@           invariant cls(leftOperand) >= 2 + precedence && prec(tok(p)) <= topPrec(leftOperand)
+//@           invariant prec(old(tok(p))) > precedence ==> (rem(p) < old(rem(p)) || tok(p) == old(tok(p)))
+//@           invariant rem(p) == old(rem(p)) ==> tok(p) == old(tok(p))
+//@           decreases rem(p)
+
+//@ func (*Parser).parseUnaryExpression
+//@   like (*Parser).parseSimpleUnaryExpression
+
+//@ func (*Parser).parseSimpleUnaryExpression
+//@   tags [C01,C02,C15]
+//@   requires pinv(p)
+//@   assigns parserState(p)
+//@   panics never
+//@   decreases rem(p), 25
+//@   ensures pres(p, result) && xpos(result) == old(spos(p))
+//@   ensures first(old(tok(p))) ==> rem(p) < old(rem(p))
+//@   ensures[C02] cls(result) >= 12
+
+//@ func (*Parser).parsePrefixUnaryExpression
+//@   tags [C01,C02,C15]
+//@   requires pinv(p) && prefixTok(tok(p))
+//@   assigns parserState(p)
+//@   panics never
+//@   decreases rem(p), 24
+//@   ensures pstep(p) && result != nil && fresh(result) && result.end == spos(p) && result.pos == old(spos(p)) && result.pos <= result.end && rem(p) < old(rem(p))
+//@   ensures[C01] result.Operator != nil && okx(result.Operand) && result.Operator.Token == old(tok(p))
+//@   ensures[C02] cls(result.Operand) >= 12
+
+//@ func (*Parser).parseTypeOfExpression
+//@   tags [C01,C02,C15]
+//@   requires pinv(p) && tok(p) == SK_TypeofKeyword
+//@   assigns parserState(p)
+//@   panics never
+//@   decreases rem(p), 24
+//@   ensures pstep(p) && result != nil && fresh(result) && result.end == spos(p) && result.pos == old(spos(p)) && result.pos <= result.end && rem(p) < old(rem(p))
+//@   ensures[C01] okx(result.Expression)
+//@   ensures[C02] cls(result.Expression) >= 12
+
+//@ func (*Parser).parseLeftHandSideExpressionOrHigher
+//@   tags [C01,C02,C15]
+//@   requires pinv(p)
+//@   assigns parserState(p)
+//@   panics never
+//@   decreases rem(p), 23
+//@   ensures pres(p, result) && xpos(result) == old(spos(p))
+//@   ensures primTok(old(tok(p))) ==> rem(p) < old(rem(p))
+//@   ensures[C02] cls(result) >= 13
+
+//@ func (*Parser).parseMemberExpressionOrHigher
+//@   tags [C01,C02,C15]
+//@   requires pinv(p)
+//@   assigns parserState(p)
+//@   panics never
+//@   decreases rem(p), 22
+//@   ensures pres(p, result) && xpos(result) == old(spos(p))
+//@   ensures primTok(old(tok(p))) ==> rem(p) < old(rem(p))
+//@   ensures[C02] cls(result) >= 13
+
+//@ func (*Parser).parsePrimaryExpression
+//@   tags [C01,C02,C15]
+//@   requires pinv(p)
+//@   assigns parserState(p)
+//@   panics never
+//@   decreases rem(p), 21
+//@   ensures pres(p, result) && xpos(result) == old(spos(p))
+//@   ensures primTok(old(tok(p))) ==> rem(p) < old(rem(p))
+//@   ensures[C02] cls(result) >= 13
+
+//@ func (*Parser).parseParenthesizedExpression
+//@   tags [C01,C02,C15]
+//@   requires pinv(p) && tok(p) == SK_OpenParen
+//@   assigns parserState(p)
+//@   panics never
+//@   decreases rem(p), 19
+//@   ensures pstep(p) && result != nil && fresh(result) && result.end == spos(p) && result.pos == old(spos(p)) && result.pos <= result.end && rem(p) < old(rem(p))
+//@   ensures[C01] okx(result.Expression)
+
+//@ func (*Parser).parseArrayLiteralExpression
+//@   tags [C01,C02,C15]
+//@   requires pinv(p) && tok(p) == SK_OpenBracket
+//@   assigns parserState(p)
+//@   panics never
+//@   decreases rem(p), 19
+//@   ensures pstep(p) && result != nil && fresh(result) && result.end == spos(p) && result.pos == old(spos(p)) && result.pos <= result.end && rem(p) < old(rem(p))
+//@   ensures[C01] result.Elements != nil
+
+//@ func (*Parser).parseCallExpressionRest
+//@   tags [C01,C02,C15]
+//@   requires pinv(p) && okx(expr) && xend(expr) == spos(p) && xpos(expr) <= xend(expr) && cls(expr) >= 13
+//@   assigns parserState(p)
+//@   panics never
+//@   decreases rem(p), 18
+//@   ensures pres(p, result) && xpos(result) == xpos(expr)
+//@   ensures[C02] cls(result) >= 13
+//@   at call (*Parser).parseArgumentList: assert[C02,C14] !lbk(p)
+//@   loop 1: invariant pinv(p) && rem(p) <= old(rem(p)) && ndp(p) >= old(ndp(p)) && okx(expr) && xend(expr) == spos(p) && xpos(expr) == old(xpos(expr)) && xpos(expr) <= xend(expr) && cls(expr) >= 13
+//@           invariant rem(p) == old(rem(p)) ==> tok(p) == old(tok(p))
+//@           decreases rem(p)
+
+//@ func (*Parser).parseMemberExpressionRest
+//@   tags [C01,C02,C15]
+//@   requires pinv(p) && okx(expr) && xend(expr) == spos(p) && xpos(expr) <= xend(expr) && cls(expr) >= 13
+//@   assigns parserState(p)
+//@   panics never
+//@   decreases rem(p), 17
+//@   ensures pres(p, result) && xpos(result) == xpos(expr)
+//@   ensures[C02] cls(result) >= 13
+//@   at call (*Parser).gotToken: assert[C02,C14] !lbk(p)
+//@   loop 1: invariant pinv(p) && rem(p) <= old(rem(p)) && ndp(p) >= old(ndp(p)) && okx(expr) && xend(expr) == spos(p) && xpos(expr) == old(xpos(expr)) && xpos(expr) <= xend(expr) && cls(expr) >= 13
+//@           invariant rem(p) == old(rem(p)) ==> tok(p) == old(tok(p))
+//@           decreases rem(p)
+
+//@ func (*Parser).parseRightSideOfDot
+//@   tags [C01,C15]
+//@   requires pinv(p)
+//@   assigns parserState(p)
+//@   panics never
+//@   ensures pstep(p) && result != nil && fresh(result) && result.end == spos(p) && result.pos <= result.end && result.pos >= old(spos(p))
+//@   ensures[C01] len(result.Value) > 0 || ndp(p) > 0
+
+//@ func (*Parser).parseArgumentList
+//@   tags [C01,C02,C15]
+//@   requires pinv(p) && tok(p) == SK_OpenParen
+//@   assigns parserState(p)
+//@   panics never
+//@   decreases rem(p), 16
+//@   ensures pstep(p) && rem(p) < old(rem(p))
+//@   ensures[C01] result0 != nil
+//@   ensures[C02] result1 != nil ==> (tok(p) == SK_CloseParen || ndp(p) > 0)
+
+//@ func parseDelimitedList
+//@   tags [C01,C02,C15]
+//@   requires pinv(p) && (kind == 0 || kind == 1) && recv(parseElement) == p
+//@   dispatch parseElement: (*Parser).parseArgumentExpression, (*Parser).parseArgumentOrArrayLiteralElement
+//@   assigns parserState(p)
+//@   panics never
+//@   decreases rem(p) + 1, 15
+//@   ensures pstep(p) && result != nil && fresh(result)
+//@   loop 1: invariant pinv(p) && rem(p) <= old(rem(p)) && ndp(p) >= old(ndp(p)) && list != nil && fresh(list)
+//@           decreases rem(p)
